@@ -1,5 +1,6 @@
 //! dbh — embedded-database engines. `dbh <engine> --seed N --tier quick|thorough --out FILE`
 
+mod crash_eng;
 mod hist_eng;
 mod search_eng;
 mod storage_eng;
@@ -32,6 +33,8 @@ fn run_engine(engine: &str, args: &Args) -> Report {
         "hist_c18" => drive(&hist_eng::Hist { prop: "C18" }, args),
         "c13" => drive(&hist_eng::C13, args),
         "c19" => drive(&term_eng::C19, args),
+        "crash_c02" => drive(&crash_eng::Crash { prop: "C02" }, args),
+        "crash_c03" => drive(&crash_eng::Crash { prop: "C03" }, args),
         "c14" => drive(&search_eng::C14, args),
         "c15" => drive(&search_eng::C15, args),
         "c16" => drive(&search_eng::C16, args),
